@@ -53,7 +53,7 @@ def gen_unit(rng):
     for i in range(nsel):
         r = rng.random()
         if r < 0.25:
-            e = ("path", 0, (("k", rng.choice(("i", "b", "s", "tw"))),)) if cur.dot == "rec" else ("call", "size", (("path", 0, ()),))  # collapses inputs before --unique
+            e = ("path", 0, (("k", rng.choice(("i", "b", "s", "tw", "big"))),)) if cur.dot == "rec" else ("call", "size", (("path", 0, ()),))  # collapses inputs before --unique
         else:
             e = g.gen(rng.choice(("num", "str", "bool", "any", "arr:num", "int")), cur)
         # names are whatever follows '=': blanks inside or at the end belong to the name ("c0" and "c0 " are two names)
@@ -174,6 +174,11 @@ def run_unit(ctx, unit):
         b = [0] + list(unit["file_cuts"]) + [len(texts)]
         files = [("in%d.json" % (len(b) - i), b"\n".join(texts[b[i]:b[i + 1]])) for i in range(len(b) - 1)]
         cases[1] = core.Case(["@D@/" + nme for nme, _ in files] + a2, b"", files=files)
+        if len(files) == 1 and unit["shuffle_seed"] % 3 == 0:
+            # ... or from the only file of a directory argument ("all its files will be used", whatever they are called)
+            nme = (".hidden.json", "sub/.in.json", ".d/in.json", "plain")[(unit["shuffle_seed"] // 3) % 4]
+            cases[1] = core.Case(["@D@/dd"] + a2, b"", files=[("dd/" + nme, files[0][1])])
+            st.count("second_run_from_a_directory")
         st.count("second_run_from_files")
     csv_at = None
     if unit["selects"] and unit["group"] is None and not unit["merge"]:
